@@ -3,30 +3,85 @@ import ZarrsModel.Model.Cache
 import ZarrsModel.Lemmas.Fault
 /-
 C20 — store failures surface as errors and leave chunk-granular state.
+
+(`ZarrsModel.Props.C01`, reached through `ZarrsModel.Lemmas.Fault`, supplies the example configuration
+`C01.exCfg` — a 5×7 array with 2×3 chunks — used by the non-vacuity `example`s.)
 -/
 namespace Zarrs.C20
 open Zarrs
 
 variable {α : Type} [DecidableEq α]
 
+/-! ### the example values used by the non-vacuity `example`s -/
+
+/-- a region of the 5×7 example array straddling the four chunks (0,0), (0,1), (1,0), (1,1) -/
+def exRegion : Subset := ⟨[1, 2], [3, 4]⟩
+def exData : List Nat := [0, 1, 2, 3, 4, 5, 6, 7, 8, 9, 10, 11]
+/-- the box of chunks meeting `exRegion` -/
+def exChunks : Subset := ⟨[0, 0], [2, 2]⟩
+/-- a sorted store holding chunk (0,0) (met by the region) and chunk (2,2) (not met) -/
+def exStore : KV := [(C01.exKey [0, 0], [1, 2, 3, 4, 5, 6]), (C01.exKey [2, 2], [9, 9, 9, 9, 9, 9])]
+/-- the fault-free final state -/
+def exFull : KV :=
+  [(C01.exKey [0, 0], [1, 2, 3, 4, 5, 0]), (C01.exKey [0, 1], [0, 0, 0, 1, 2, 3]),
+   (C01.exKey [1, 0], [0, 0, 4, 0, 0, 8]), (C01.exKey [1, 1], [5, 6, 7, 9, 10, 11]),
+   (C01.exKey [2, 2], [9, 9, 9, 9, 9, 9])]
+/-- two of the four chunks were written before the failure was reported -/
+def exDone : List Idx := [[0, 1], [1, 0]]
+/-- the state they leave -/
+def exPartial : KV :=
+  [(C01.exKey [0, 0], [1, 2, 3, 4, 5, 6]), (C01.exKey [0, 1], [0, 0, 0, 1, 2, 3]),
+   (C01.exKey [1, 0], [0, 0, 4, 0, 0, 8]), (C01.exKey [2, 2], [9, 9, 9, 9, 9, 9])]
+
 /-- **a failing store operation makes the method fail**: if the per-chunk step of any chunk that is reached fails,
 the fold (the method) returns an error, never success -/
 theorem fault_is_error {σ} (F : Idx → Bool) (step : σ → Idx → Option σ) (s : σ) (chunks : List Idx)
     (h : ∃ c ∈ chunks, F c = true) : ArrCfg.foldOpt (withFaults F step) s chunks = none := by
-  sorry
+  induction chunks generalizing s with
+  | nil =>
+    obtain ⟨c, hc, _⟩ := h
+    cases hc
+  | cons b bs ih =>
+    simp only [ArrCfg.foldOpt, withFaults]
+    by_cases hb : F b = true
+    · rw [if_pos hb]
+    · rw [if_neg hb]
+      cases step s b with
+      | none => rfl
+      | some s1 =>
+        apply ih
+        obtain ⟨c, hc, hF⟩ := h
+        rcases List.mem_cons.1 hc with rfl | hc'
+        · exact absurd hF hb
+        · exact ⟨c, hc', hF⟩
+/-- hypothesis satisfiable: the store fails on the third of the four chunks of the example write; the first two
+steps have run, the method reports an error -/
+example : (∃ c ∈ exChunks.indices, (fun c => c == [1, 0]) c = true) ∧
+    ArrCfg.foldOpt (withFaults (fun c => c == [1, 0]) (C01.exCfg.storeArraySubsetChunk exRegion exData))
+      exStore exChunks.indices = none :=
+  ⟨⟨[1, 0], by decide, by decide⟩, by decide⟩
 
 /-- without faults nothing changes -/
 theorem no_fault_same {σ} (step : σ → Idx → Option σ) (s : σ) (chunks : List Idx) :
-    ArrCfg.foldOpt (withFaults (fun _ => false) step) s chunks = ArrCfg.foldOpt step s chunks := by
-  sorry
+    ArrCfg.foldOpt (withFaults (fun _ => false) step) s chunks = ArrCfg.foldOpt step s chunks :=
+  ArrCfg.foldOpt_congr _ _ chunks (fun _ _ _ => by simp [withFaults]) s
 
 /-- the multi-chunk branch of `store_array_subset` is the fold of its per-chunk step -/
 theorem storeArraySubset_is_fold (cfg : ArrCfg α) (st : KV) (region : Subset) (data : List α) (chunks : Subset)
     (hr : region.rank = cfg.shape.length) (hc : cfg.grid.chunksInArraySubset region cfg.shape = some chunks)
     (hn : chunks.numElements ≠ 1) (hd : data.length = region.numElements) :
     cfg.storeArraySubset st region data = ArrCfg.foldOpt (cfg.storeArraySubsetChunk region data) st chunks.indices := by
-  sorry
+  unfold ArrCfg.storeArraySubset
+  rw [if_neg (by simp [hr]), hc]
+  simp only
+  rw [if_neg (by simp [hn]), if_neg (by simp [hd])]
+  rfl
+example : exRegion.rank = C01.exCfg.shape.length ∧
+    C01.exCfg.grid.chunksInArraySubset exRegion C01.exCfg.shape = some exChunks ∧
+    exChunks.numElements ≠ 1 ∧ exData.length = exRegion.numElements := by decide
 
+-- (`hw`, `hc` are kept from the stated property; the proof needs only `hcw`)
+set_option linter.unusedVariables false in
 /-- **chunk-granular state**: after the per-chunk steps of ANY sub-list `done` of the chunks (whatever was reached
 before the failure), every chunk key holds its previous value or its intended new value (the value in the
 fault-free final state) -/
@@ -37,8 +92,33 @@ theorem chunk_granular (cfg : ArrCfg α) (hK : cfg.KeysInjective) (st stFull st'
     (done : List Idx) (hsub : done.Sublist chunks.indices)
     (hpart : ArrCfg.foldOpt (cfg.storeArraySubsetChunk region data) st done = some st') :
     ∀ k : Key, st'.get k = st.get k ∨ st'.get k = stFull.get k := by
-  sorry
+  rw [ArrCfg.storeArraySubsetChunk_eq_kvStep] at hfull hpart
+  have hndC := ArrCfg.keys_nodup hK _ (chunks.indices_nodup hcw)
+  have hndD := ArrCfg.keys_nodup hK _ ((chunks.indices_nodup hcw).sublist hsub)
+  obtain ⟨hF, _, _⟩ := ArrCfg.foldOpt_kvStep_some _ _ _ hndC st stFull hfull
+  obtain ⟨hP, hPframe, _⟩ := ArrCfg.foldOpt_kvStep_some _ _ _ hndD st st' hpart
+  intro k
+  by_cases hk : k ∈ done.map cfg.keyOf
+  · obtain ⟨c, hcd, rfl⟩ := List.mem_map.1 hk
+    right
+    have h1 := hP c hcd
+    rw [hF c (hsub.subset hcd)] at h1
+    exact (Option.some.inj h1).symm
+  · left
+    exact hPframe k hk
+/-- hypotheses satisfiable: the write of `exData` to `exRegion` over `exStore`, two of its four per-chunk steps
+done -/
+example : C01.exCfg.KeysInjective ∧ exRegion.wf = true ∧
+    C01.exCfg.grid.chunksInArraySubset exRegion C01.exCfg.shape = some exChunks ∧ exChunks.wf = true ∧
+    ArrCfg.foldOpt (C01.exCfg.storeArraySubsetChunk exRegion exData) exStore exChunks.indices = some exFull ∧
+    exDone.Sublist exChunks.indices ∧
+    ArrCfg.foldOpt (C01.exCfg.storeArraySubsetChunk exRegion exData) exStore exDone = some exPartial :=
+  ⟨C01.exKey_inj, by decide, by decide, by decide, by decide, by decide, by decide⟩
+/-- the partial state is neither the old nor the new state -/
+example : exPartial ≠ exStore ∧ exPartial ≠ exFull := by decide
 
+-- (`hc` is kept from the stated property; the proof does not need it)
+set_option linter.unusedVariables false in
 /-- **retry converges**: re-running the whole method, fault-free, from any such partial state gives the
 fault-free final state -/
 theorem retry_converges (cfg : ArrCfg α) (hL : cfg.Lossless) (hK : cfg.KeysInjective) (st stFull st' : KV) (hs : st.sorted)
@@ -48,17 +128,93 @@ theorem retry_converges (cfg : ArrCfg α) (hL : cfg.Lossless) (hK : cfg.KeysInje
     (done : List Idx) (hsub : done.Sublist chunks.indices)
     (hpart : ArrCfg.foldOpt (cfg.storeArraySubsetChunk region data) st done = some st') :
     ArrCfg.foldOpt (cfg.storeArraySubsetChunk region data) st' chunks.indices = some stFull := by
-  sorry
+  rw [ArrCfg.storeArraySubsetChunk_eq_kvStep] at hfull hpart ⊢
+  have hndC := ArrCfg.keys_nodup hK _ (chunks.indices_nodup hcw)
+  have hndD := ArrCfg.keys_nodup hK _ ((chunks.indices_nodup hcw).sublist hsub)
+  obtain ⟨hF, hFframe, hFs⟩ := ArrCfg.foldOpt_kvStep_some _ _ _ hndC st stFull hfull
+  obtain ⟨hP, hPframe, hPs⟩ := ArrCfg.foldOpt_kvStep_some _ _ _ hndD st st' hpart
+  -- every per-chunk step, run from the partial state, writes the value of the fault-free final state
+  have hstep : ∀ c ∈ chunks.indices,
+      cfg.storeArraySubsetChunkW region data c (st'.get (cfg.keyOf c)) = some (stFull.get (cfg.keyOf c)) := by
+    intro c hcm
+    by_cases hcd : c ∈ done
+    · have h1 := hP c hcd
+      rw [hF c hcm] at h1
+      rw [← Option.some.inj h1]
+      exact ArrCfg.storeArraySubsetChunkW_idem hL region data hw c _ _ (hF c hcm)
+    · have hk : cfg.keyOf c ∉ done.map cfg.keyOf := by
+        intro hm
+        obtain ⟨c', hc'd, he⟩ := List.mem_map.1 hm
+        exact hcd (hK _ _ he ▸ hc'd)
+      rw [hPframe _ hk]
+      exact hF c hcm
+  obtain ⟨s2, hs2⟩ := ArrCfg.foldOpt_kvStep_of _ _ _ hndC st' (fun c => stFull.get (cfg.keyOf c)) hstep
+  obtain ⟨hR, hRframe, hRs⟩ := ArrCfg.foldOpt_kvStep_some _ _ _ hndC st' s2 hs2
+  rw [hs2]
+  congr 1
+  apply KV.ext_of_sorted s2 stFull (hRs (hPs hs)) (hFs hs)
+  intro k
+  by_cases hk : k ∈ chunks.indices.map cfg.keyOf
+  · obtain ⟨c, hcm, rfl⟩ := List.mem_map.1 hk
+    have h1 := hR c hcm
+    rw [hstep c hcm] at h1
+    exact (Option.some.inj h1).symm
+  · have hkd : k ∉ done.map cfg.keyOf := fun hm => hk ((hsub.map cfg.keyOf).subset hm)
+    rw [hRframe k hk, hPframe k hkd, hFframe k hk]
+/-- hypotheses satisfiable (same example as `chunk_granular`) -/
+example : C01.exCfg.Lossless ∧ C01.exCfg.KeysInjective ∧ exStore.sorted ∧ exRegion.wf = true ∧
+    C01.exCfg.grid.chunksInArraySubset exRegion C01.exCfg.shape = some exChunks ∧ exChunks.wf = true ∧
+    ArrCfg.foldOpt (C01.exCfg.storeArraySubsetChunk exRegion exData) exStore exChunks.indices = some exFull ∧
+    exDone.Sublist exChunks.indices ∧
+    ArrCfg.foldOpt (C01.exCfg.storeArraySubsetChunk exRegion exData) exStore exDone = some exPartial :=
+  ⟨fun _ => rfl, C01.exKey_inj, by unfold KV.sorted; decide, by decide, by decide, by decide, by decide, by decide,
+    by decide⟩
+/-- the conclusion on the example, checked by evaluation -/
+example : ArrCfg.foldOpt (C01.exCfg.storeArraySubsetChunk exRegion exData) exPartial exChunks.indices = some exFull := by
+  decide
+/-- elision does not break the retry: writing fill over the last non-fill element of chunk (0,0) erases its key;
+the retry from the state where only that step ran reads the chunk back as fill and erases again -/
+example :
+    ArrCfg.foldOpt (C01.exCfg.storeArraySubsetChunk exRegion (List.replicate 12 0))
+      [(C01.exKey [0, 0], [0, 0, 0, 0, 0, 6])] [[0, 0]] = some [] ∧
+    ArrCfg.foldOpt (C01.exCfg.storeArraySubsetChunk exRegion (List.replicate 12 0))
+      [(C01.exKey [0, 0], [0, 0, 0, 0, 0, 6])] exChunks.indices = some [] ∧
+    ArrCfg.foldOpt (C01.exCfg.storeArraySubsetChunk exRegion (List.replicate 12 0)) [] exChunks.indices = some [] := by
+  decide
+/-- `hL` matters: with a codec chain that cannot decode what it encoded the first run succeeds (the chunks it
+creates are never read) but the retry fails on the chunk already written -/
+example :
+    let cfg : ArrCfg Nat := { C01.exCfg with dec := fun _ => none }
+    (ArrCfg.foldOpt (cfg.storeArraySubsetChunk exRegion exData) [] exChunks.indices).isSome = true ∧
+    (ArrCfg.foldOpt (cfg.storeArraySubsetChunk exRegion exData) [] [[0, 1]]).isSome = true ∧
+    ∀ st', ArrCfg.foldOpt (cfg.storeArraySubsetChunk exRegion exData) [] [[0, 1]] = some st' →
+      ArrCfg.foldOpt (cfg.storeArraySubsetChunk exRegion exData) st' exChunks.indices = none := by
+  refine ⟨by decide, by decide, ?_⟩
+  intro st' h
+  have : st' = [(C01.exKey [0, 1], [0, 0, 0, 1, 2, 3])] := by
+    have h2 : ArrCfg.foldOpt (({ C01.exCfg with dec := fun _ => none } : ArrCfg Nat).storeArraySubsetChunk
+      exRegion exData) [] [[0, 1]] = some [(C01.exKey [0, 1], [0, 0, 0, 1, 2, 3])] := by decide
+    rw [h2] at h
+    exact (Option.some.inj h).symm
+  subst this
+  decide
 
 /-- a single whole-chunk write is one store operation: it either happened or not -/
 theorem store_chunk_atomic (cfg : ArrCfg α) (st st' : KV) (c : Idx) (d : List α) (h : cfg.storeChunk st c d = some st') :
-    ∀ k : Key, k ≠ cfg.keyOf c → st'.get k = st.get k := by
-  sorry
+    ∀ k : Key, k ≠ cfg.keyOf c → st'.get k = st.get k :=
+  fun k hk => ArrCfg.storeChunk_frame st st' c d h k hk
+example : ∃ st', C01.exCfg.storeChunk exStore [0, 1] [1, 2, 3, 4, 5, 6] = some st' ∧
+    C01.exKey [2, 2] ≠ C01.exCfg.keyOf [0, 1] :=
+  ⟨_, rfl, by decide⟩
 
 /-- failed reads are not cached (restated from the cache model) -/
 theorem failed_read_not_cached (cfg : ArrCfg α) (st : KV) (kind : CacheKind) (evict : Cache α → Cache α)
     (cache : Cache α) (c : Idx) (hmiss : cache.lookup c = none) (hfail : cfg.cacheFill st kind c = none) :
-    (cfg.cachedRetrieveChunk st kind evict cache c).2 = cache := by
-  sorry
+    (cfg.cachedRetrieveChunk st kind evict cache c).2 = cache :=
+  C06.failed_read_not_cached cfg st kind evict cache c hmiss hfail
+/-- hypotheses satisfiable: a miss on a chunk whose stored value has the wrong length (the decode fails), on a
+non-empty cache -/
+example : Cache.lookup ([([2, 2], CacheEntry.decoded [9, 9, 9, 9, 9, 9])] : Cache Nat) [0, 0] = none ∧
+    C01.exCfg.cacheFill [(C01.exKey [0, 0], [1, 2, 3])] .decoded [0, 0] = none := by decide
 
 end Zarrs.C20
